@@ -349,13 +349,32 @@ impl Space for RoundTrip {
             ctx.outcome("time-limited");
             return Ok(());
         }
+        if self.toggle_after_build {
+            // the two solvers work with different scalings (one equilibrated at construction, the other not): what
+            // is compared is the file (above), the settings, and that definite verdicts agree
+            let class = |s: SolverStatus| match s {
+                SolverStatus::Solved | SolverStatus::AlmostSolved => 1,
+                SolverStatus::PrimalInfeasible | SolverStatus::AlmostPrimalInfeasible => 2,
+                SolverStatus::DualInfeasible | SolverStatus::AlmostDualInfeasible => 3,
+                _ => 0,
+            };
+            let (ca, cb) = (class(a.status), class(b.status));
+            ensure!(ca == 0 || cb == 0 || ca == cb || (ca > 1 && cb > 1), "verdict-differs-after-round-trip", "original {:?} loaded {:?}", a.status, b.status);
+            if ca == 1 && cb == 1 {
+                let tol = 1e-4 * f64::max(1.0, a.obj_val.abs());
+                ensure!((a.obj_val - b.obj_val).abs() <= tol, "objective-differs-after-round-trip", "{} vs {}", a.obj_val, b.obj_val);
+            }
+            ctx.nontrivial += 1;
+            ctx.outcome("flag-flipped-roundtrip");
+            return Ok(());
+        }
         // With equilibration the loaded data differ from the solver's by the rounding of one scale/unscale round
         // trip (the property allows exactly that). On knife-edge instances -- a kept right-hand side of 1e20,
         // iterative refinement switched off, a generalised power cone -- those ulps can turn Solved into
         // InsufficientProgress or back. An inconclusive status therefore carries no expectation there; definite
         // verdict classes must agree. With equilibration off the round trip is exact and statuses, objectives
         // and iteration counts are compared bit for bit below.
-        if st.equilibrate_enable && a.status != b.status {
+        if (st.equilibrate_enable || equil_at_build) && a.status != b.status {
             let class = |s: SolverStatus| match s {
                 SolverStatus::Solved | SolverStatus::AlmostSolved => 1,
                 SolverStatus::PrimalInfeasible | SolverStatus::AlmostPrimalInfeasible => 2,
